@@ -13,35 +13,118 @@ Open Scope Z_scope.
 Inductive cons := CIdle | CInGet.
 
 Record tsl := mkTsl {
-  t_conn : bool;              (* _is_connected (= data callbacks and _disconnected registered) *)
+  t_conn : bool;              (* _is_connected *)
   t_queue : list qitem;
   t_cons : cons;              (* where the consumer thread is *)
   t_pend : nat;               (* _disconnected calls that have not yet put their DISCONNECT_EVENT *)
-  t_own : list Z }.           (* the log configurations given to the constructor *)
+  t_own : list Z;             (* the log configurations given to the constructor *)
+  t_reg : bool;               (* _disconnected is registered in cf.disconnected *)
+  t_dreg : list Z;            (* configurations whose data_received_cb holds _log_callback *)
+  t_cpos : option nat;        (* the user thread is inside connect(): index of the next configuration *)
+  t_link : bool;              (* cf.link is not None *)
+  t_known : list Z;           (* configurations that Log.add_config has accepted at some time (their cf is set) *)
+  t_blk : list Z }.           (* configurations in Log.log_blocks (accepted since the last log reset): only their
+                                 data packets are decoded *)
 
-Definition tsl_init (own : list Z) : tsl := mkTsl false [] CIdle 0 own.
+Definition tsl_init (own : list Z) : tsl := mkTsl false [] CIdle 0 own false [] None true [] [].
 
-Definition owns (s : tsl) (c : Z) : bool := existsb (Z.eqb c) (t_own s).
+Definition memz (c : Z) (l : list Z) : bool := existsb (Z.eqb c) l.
+Definition owns (s : tsl) (c : Z) : bool := memz c (t_own s).
 
 Inductive tev :=
-| TConnect | TDisconnect     (* user thread: connect() / disconnect() (also __enter__ / __exit__) *)
+| TConnect                   (* user thread: connect() without interruption (also __enter__) *)
+| TConnBegin                 (* connect() step by step: the test, emptying the queue, registering _disconnected *)
+| TConnCfg                   (*   one configuration: add_config, data callback registered, start() *)
+| TConnEnd                   (*   _is_connected = True *)
+| TDisconnect                (* user thread: disconnect() (also __exit__) *)
 | TNext                      (* consumer: calls next(): the _is_connected test, then enters get() *)
 | TGet                       (* consumer inside get(): takes the head if the queue is not empty *)
 | TSample (cfg k : Z)        (* dispatcher: block `cfg` decoded sample number k and fired data_received_cb *)
-| TLost1                     (* dispatcher: _disconnected runs disconnect() ... *)
+| TLinkUp                    (* a new link: the Crazyflie is connected again, log reset, TOC known *)
+| TLost1                     (* the link is lost; cf.disconnected fires: _disconnected (if registered) runs disconnect() ... *)
 | TLost2.                    (* ... and puts DISCONNECT_EVENT *)
 
-Inductive tobs := OYield (k : Z) | OStop | OInGet | ONone | ORaise | ONoop.
+Inductive tobs := OYield (k : Z) | OStop | OInGet | ONone | ORaise | ONoop
+  | ORaiseAttr.   (* connect(): config.start() on a configuration that was never accepted while the link is down *)
+
+Definition upd (s : tsl) (conn : bool) (q : list qitem) (c : cons) (p : nat) (reg : bool) (dreg : list Z)
+  (cpos : option nat) : tsl := mkTsl conn q c p (t_own s) reg dreg cpos (t_link s) (t_known s) (t_blk s).
 
 Definition set_q (s : tsl) (conn : bool) (q : list qitem) (c : cons) (p : nat) : tsl :=
-  mkTsl conn q c p (t_own s).
+  upd s conn q c p (t_reg s) (t_dreg s) (t_cpos s).
 
-Definition t_step (s : tsl) (e : tev) : tsl * tobs :=
+Definition set_link (s : tsl) (l : bool) : tsl :=
+  mkTsl (t_conn s) (t_queue s) (t_cons s) (t_pend s) (t_own s) (t_reg s) (t_dreg s) (t_cpos s) l (t_known s) (t_blk s).
+
+Definition set_kb (s : tsl) (k b : list Z) : tsl :=
+  mkTsl (t_conn s) (t_queue s) (t_cons s) (t_pend s) (t_own s) (t_reg s) (t_dreg s) (t_cpos s) (t_link s) k b.
+
+Definition add_reg (c : Z) (l : list Z) : list Z := if memz c l then l else l ++ [c].   (* Caller.add_callback *)
+
+(* one turn of the loop of connect() for configuration c: add_config (accepts when the link is up, returns
+   silently otherwise), the data callback is registered, start() -- which raises AttributeError when the
+   configuration has never been accepted (its cf is None).  Result: (dreg, known, log_blocks, ok) *)
+Definition cfg_turn (link : bool) (c : Z) (dreg known blk : list Z) : list Z * list Z * list Z * bool :=
+  let known1 := if link then add_reg c known else known in
+  let blk1 := if link then add_reg c blk else blk in
+  (add_reg c dreg, known1, blk1, memz c known1).
+
+(* the whole loop, stopping at the first exception *)
+Fixpoint cfg_loop (link : bool) (cs : list Z) (dreg known blk : list Z) : list Z * list Z * list Z * bool :=
+  match cs with
+  | [] => (dreg, known, blk, true)
+  | c :: r => let '(d1, k1, b1, ok) := cfg_turn link c dreg known blk in
+              if ok then cfg_loop link r d1 k1 b1 else (d1, k1, b1, false)
+  end.
+
+(* `early` = where connect() registers _disconnected: true = before the loop over the configurations (the
+   code), false = after it (the variant refuted in Proofs_threads.v) *)
+Definition t_stepg (early : bool) (s : tsl) (e : tev) : tsl * tobs :=
   match e with
   | TConnect =>
-      (* raises when connected; otherwise empties the queue (fixes/F05d), registers, sets the flag *)
-      if t_conn s then (s, ORaise) else (set_q s true [] (t_cons s) (t_pend s), ONone)
-  | TDisconnect => (set_q s false (t_queue s) (t_cons s) (t_pend s), ONone)
+      match t_cpos s with
+      | Some _ => (s, ONoop)                                   (* the user thread is busy *)
+      | None =>
+          if t_conn s then (s, ORaise)
+          else
+            let '(d1, k1, b1, ok) := cfg_loop (t_link s) (t_own s) (t_dreg s) (t_known s) (t_blk s) in
+            if ok then (set_kb (upd s true [] (t_cons s) (t_pend s) true d1 None) k1 b1, ONone)
+            else (set_kb (upd s false [] (t_cons s) (t_pend s) (if early then true else t_reg s) d1 None) k1 b1,
+                  ORaiseAttr)
+      end
+  | TConnBegin =>
+      match t_cpos s with
+      | Some _ => (s, ONoop)
+      | None =>
+          if t_conn s then (s, ORaise)
+          else (upd s false [] (t_cons s) (t_pend s) (if early then true else t_reg s) (t_dreg s) (Some O), ONone)
+      end
+  | TConnCfg =>
+      match t_cpos s with
+      | Some j =>
+          match nth_error (t_own s) j with
+          | Some c =>
+              let '(d1, k1, b1, ok) := cfg_turn (t_link s) c (t_dreg s) (t_known s) (t_blk s) in
+              if ok then (set_kb (upd s (t_conn s) (t_queue s) (t_cons s) (t_pend s) (t_reg s) d1 (Some (S j))) k1 b1, ONone)
+              else (set_kb (upd s (t_conn s) (t_queue s) (t_cons s) (t_pend s) (t_reg s) d1 None) k1 b1, ORaiseAttr)
+          | None => (s, ONoop)
+          end
+      | None => (s, ONoop)
+      end
+  | TConnEnd =>
+      match t_cpos s with
+      | Some j =>
+          if Nat.eqb j (length (t_own s))
+          then (upd s true (t_queue s) (t_cons s) (t_pend s) (if early then t_reg s else true) (t_dreg s) None, ONone)
+          else (s, ONoop)
+      | None => (s, ONoop)
+      end
+  | TDisconnect =>
+      match t_cpos s with
+      | Some _ => (s, ONoop)
+      | None => if t_conn s then (upd s false (t_queue s) (t_cons s) (t_pend s) false [] None, ONone)
+                else (s, ONone)
+      end
   | TNext =>
       match t_cons s with
       | CInGet => (s, ONoop)                                   (* the consumer thread is busy *)
@@ -54,10 +137,19 @@ Definition t_step (s : tsl) (e : tev) : tsl * tobs :=
       | _, _ => (s, ONoop)                                     (* still blocked / not in get() *)
       end
   | TSample c k =>
-      if t_conn s && owns s c then (set_q s true (t_queue s ++ [QSample k]) (t_cons s) (t_pend s), ONone)
+      if memz c (t_dreg s) && memz c (t_blk s)
+      then (set_q s (t_conn s) (t_queue s ++ [QSample k]) (t_cons s) (t_pend s), ONone)
       else (s, ONone)
+  | TLinkUp =>
+      (* nothing when the link is up; otherwise a new session: the log reset empties log_blocks *)
+      if t_link s then (s, ONone) else (set_kb (set_link s true) (t_known s) [], ONone)
   | TLost1 =>
-      if t_conn s then (set_q s false (t_queue s) (t_cons s) (S (t_pend s)), ONone) else (s, ONone)
+      let s0 := set_link s false in
+      if t_reg s then
+        (* _disconnected: disconnect() does something only when _is_connected *)
+        if t_conn s then (upd s0 false (t_queue s) (t_cons s) (S (t_pend s)) false [] (t_cpos s), ONone)
+        else (upd s0 false (t_queue s) (t_cons s) (S (t_pend s)) true (t_dreg s) (t_cpos s), ONone)
+      else (s0, ONone)
   | TLost2 =>
       match t_pend s with
       | O => (s, ONoop)
@@ -65,17 +157,23 @@ Definition t_step (s : tsl) (e : tev) : tsl * tobs :=
       end
   end.
 
-Fixpoint t_run (s : tsl) (evs : list tev) : tsl * list tobs :=
+Definition t_step : tsl -> tev -> tsl * tobs := t_stepg true.
+
+Fixpoint t_rung (early : bool) (s : tsl) (evs : list tev) : tsl * list tobs :=
   match evs with
   | [] => (s, [])
-  | e :: r => let '(s1, o) := t_step s e in let '(s2, os) := t_run s1 r in (s2, o :: os)
+  | e :: r => let '(s1, o) := t_stepg early s e in let '(s2, os) := t_rung early s1 r in (s2, o :: os)
   end.
+
+Definition t_run : tsl -> list tev -> tsl * list tobs := t_rung true.
 
 (* ------------------------------------------------------------------ several SyncLoggers on one Crazyflie *)
 Inductive sev :=
 | SOp (i : nat) (e : tev)        (* connect/disconnect/next/get/second half of link loss of logger i *)
 | SSampleAll (cfg k : Z)         (* a data packet: every registered callback of that block fires *)
-| SLostAll.                      (* cf.disconnected fires: every registered _disconnected runs (first half) *)
+| SLinkUpAll                     (* the Crazyflie is connected again *)
+| SLostAll                       (* the link is lost; cf.disconnected fires: every registered _disconnected runs (first half) *)
+| SCfgLose (i : nat).            (* one configuration step of logger i's connect() during whose send the link is lost *)
 
 Fixpoint upd_tsl (l : list tsl) (i : nat) (x : tsl) : list tsl :=
   match l, i with
@@ -92,7 +190,14 @@ Definition sys_step (ls : list tsl) (e : sev) : list tsl * tobs :=
       | None => (ls, ONoop)
       end
   | SSampleAll c k => (map (fun s => fst (t_step s (TSample c k))) ls, ONone)
+  | SLinkUpAll => (map (fun s => fst (t_step s TLinkUp)) ls, ONone)
   | SLostAll => (map (fun s => fst (t_step s TLost1)) ls, ONone)
+  | SCfgLose i =>
+      match nth_error ls i with
+      | Some s => let '(s1, o) := t_step s TConnCfg in
+                  (map (fun s => fst (t_step s TLost1)) (upd_tsl ls i s1), o)
+      | None => (map (fun s => fst (t_step s TLost1)) ls, ONoop)
+      end
   end.
 
 Fixpoint sys_run (ls : list tsl) (evs : list sev) : list tsl * list tobs :=
@@ -106,5 +211,7 @@ Definition proj (i : nat) (e : sev) : list tev :=
   match e with
   | SOp j ev => if Nat.eqb i j then [ev] else []
   | SSampleAll c k => [TSample c k]
+  | SLinkUpAll => [TLinkUp]
   | SLostAll => [TLost1]
+  | SCfgLose j => (if Nat.eqb i j then [TConnCfg] else []) ++ [TLost1]
   end.
